@@ -38,6 +38,26 @@ def proj(tin, out):
     if ch is None: return 'SHAPE'
     return [(x[0], y[3] if not isinstance(y[3], jtree.Num) else y[3].lit) for x, y in ch]
 
+def judge(cfg, repl, kp, kind, val, okind, oval):
+    """None: the changed leaf is the placeholder of its class; 'pseudonym': a namespace position under --redactNamespaces (C12's business);
+    else (message, tags)"""
+    if kind == 'str' and cfg.nss and okind == 'str' and re.fullmatch('(?:' + re.escape(repl) + r'_[0-9a-f]{16})(?:\.' + re.escape(repl) + r'_[0-9a-f]{16})*', oval):
+        return 'pseudonym'
+    if kind == 'str':
+        cls = classify(kp, val)
+        if okind != 'str': return ('string leaf changed kind', ['kind'])
+        if cls == 'date' and not (is_iso(oval)): return ('$date value not replaced by an ISO-8601 instant', ['class', 'date'])
+        if cls == 'oid' and not re.fullmatch(r'[0-9a-fA-F]{24}', oval): return ('$oid value not replaced by 24 hex digits', ['class', 'oid'])
+        if cls == 'base64' and not is_b64(oval): return ('$binary.base64 value not replaced by valid base64', ['class', 'base64'])
+        if cls == 'email' and not EMAIL_RE.match(oval): return ('e-mail-shaped value not replaced by an e-mail-shaped placeholder', ['class', 'email'])
+        if cls == 'generic' and oval != repl: return ('string not replaced by exactly the --replacement text', ['class', 'generic'])
+        return None
+    if kind == 'num':
+        return None if (okind == 'num' and oval.lit == '0' and cfg.nums) else ('number not replaced by 0', ['num'])
+    if kind == 'bool':
+        return None if (oval is False and cfg.bools) else ('boolean not replaced by false', ['bool'])
+    return ('null leaf changed', ['null'])
+
 def run(chk, replay=None):
     rng = random.Random(chk.seed)
     th = chk.tier == 'thorough'
@@ -67,26 +87,26 @@ def run(chk, replay=None):
             if ch is None: continue   # shape is C03's business
             for (ip, kp, kind, val), (_, _, okind, oval) in ch:
                 case = {'cfg': cfg.describe(), 'path': list(kp), 'old': str(val), 'new': str(oval), 'input': l.decode('utf-8', 'replace')}
-                if kind == 'str' and cfg.nss and okind == 'str' and re.fullmatch('(?:' + re.escape(repl) + r'_[0-9a-f]{16})(?:\.' + re.escape(repl) + r'_[0-9a-f]{16})*', oval):
-                    chk.dist('changed_pseudonym'); continue
+                verdict = judge(cfg, repl, kp, kind, val, okind, oval)
+                if verdict == 'pseudonym': chk.dist('changed_pseudonym'); continue
                 if kind == 'str':
                     cls = classify(kp, val)
                     chk.nontriv((ci, cls, kp[-1] if kp else ''))
                     chk.dist('changed_' + cls)
-                    if okind != 'str': chk.violate('string leaf changed kind', case, tags=['kind']); continue
-                    if cls == 'date' and not (is_iso(oval)): chk.violate('$date value not replaced by an ISO-8601 instant', case, tags=['class', 'date'])
-                    elif cls == 'oid' and not re.fullmatch(r'[0-9a-fA-F]{24}', oval): chk.violate('$oid value not replaced by 24 hex digits', case, tags=['class', 'oid'])
-                    elif cls == 'base64' and not is_b64(oval): chk.violate('$binary.base64 value not replaced by valid base64', case, tags=['class', 'base64'])
-                    elif cls == 'email' and not EMAIL_RE.match(oval): chk.violate('e-mail-shaped value not replaced by an e-mail-shaped placeholder', case, tags=['class', 'email'])
-                    elif cls == 'generic' and oval != repl: chk.violate('string not replaced by exactly the --replacement text', case, tags=['class', 'generic'])
-                elif kind == 'num':
-                    chk.dist('changed_num')
-                    if not (okind == 'num' and oval.lit == '0' and cfg.nums): chk.violate('number not replaced by 0', case, tags=['num'])
-                elif kind == 'bool':
-                    chk.dist('changed_bool')
-                    if not (oval is False and cfg.bools): chk.violate('boolean not replaced by false', case, tags=['bool'])
                 else:
-                    chk.violate('null leaf changed', case, tags=['null'])
+                    chk.dist('changed_' + kind)
+                if verdict is not None:
+                    if not getattr(chk, '_shrunk', False):
+                        chk._shrunk = True
+                        from vlib import shrink
+                        def fails(b, cfg=cfg, repl=repl):
+                            t = jtree.parse(b); o = shrink.impl_line(cfg, b)
+                            to = jtree.parse(o) if isinstance(o, bytes) else None
+                            c2 = changed_leaves(t, to) if (t is not None and to is not None) else None
+                            return bool(c2) and any(judge(cfg, repl, x[1], x[2], x[3], y[2], y[3]) not in (None, 'pseudonym') for x, y in c2)
+                        sb = shrink.shrink_line(l, fails)
+                        case['shrunk_input'] = sb.decode('utf-8', 'replace'); case['shrunk_output'] = str(shrink.impl_line(cfg, sb))[:600]
+                    chk.violate(verdict[0], case, tags=verdict[1])
             # subType of every $binary untouched
             for (ip, kp, kind, val), (_, _, _, oval) in zip(jtree.leaves(tin), jtree.leaves(tout)):
                 if len(kp) >= 2 and kp[-1] == 'subType' and kp[-2] == '$binary' and val != oval:
